@@ -61,6 +61,7 @@ type hcExchange struct {
 	RHdr     [][2]string `json:"rhdr"`
 	RBodyLen int         `json:"rbody_len"`
 	RChunked bool        `json:"rchunked"`
+	RCloseDelim bool     `json:"rclose_delim"` // the backend answers without Content-Length or chunking and ends the body by closing the connection (HTTP/1.0 style)
 	RLastCoalesced bool  `json:"rlast_coalesced"` // chunked backend body: the last data piece is sent together with the terminating chunk
 	RGzip    bool        `json:"rgzip"`
 	RGzipBad int         `json:"rgzip_bad"` // with RGzip: 1 = gzip stream cut short, 2 = wrong CRC trailer (the declared length matches the bytes sent)
@@ -576,6 +577,27 @@ func (c *hcChain) backendHandler(w http.ResponseWriter, req *http.Request) {
 		}
 		conn.Close()
 		return
+	}
+	if ex.RCloseDelim && !hcNoBody(req.Method, ex.Status) {
+		if hj, ok := w.(http.Hijacker); ok {
+			if conn, buf, err := hj.Hijack(); err == nil {
+				var head strings.Builder
+				fmt.Fprintf(&head, "HTTP/1.1 %d %s\r\nConnection: close\r\n", ex.Status, http.StatusText(ex.Status))
+				for _, kv := range ex.RHdr {
+					fmt.Fprintf(&head, "%s: %s\r\n", kv[0], kv[1])
+				}
+				if ex.RGzip {
+					head.WriteString("Content-Encoding: gzip\r\n")
+				}
+				head.WriteString("\r\n")
+				c.r.Fault("backend.close_delimited_body")
+				buf.WriteString(head.String())
+				buf.Write(wire)
+				buf.Flush()
+				conn.Close()
+				return
+			}
+		}
 	}
 	h := w.Header()
 	for _, kv := range ex.RHdr {
